@@ -380,4 +380,153 @@ def F (sp : Spec) : Facts :=
     enums := conv.flatMap (·.1),
     structs := conv.flatMap (·.2) }
 
+-- ------------------------------------------------------------------------------------------
+-- use sites: WHERE and HOW a union is written (property level of C14)
+--
+-- Rust anchors: `converter/mod.rs::convert_schema` (component / request body / response payload),
+-- `type_resolver.rs`: `resolve_property`, `inline_union`, `try_nullable_union`, `try_inline_array`,
+-- `resolve_type_uncached`, `try_union`, `try_flatten_nested_union`; `inline_resolver.rs::resolve_inline_union`
+-- (`find_union_by_refs`, union registry keyed by (member refs, discriminator property)); `responses.rs::resolve_inline_schema`.
+-- The schema-hash cache (`get_type_name`) is not modelled: it only ever substitutes a type converted from an
+-- IDENTICAL schema, which has the same decoding discipline.
+
+inductive Pos where
+  | named   -- the component schema itself
+  | field   -- property of an object component
+  | body    -- request body of an operation
+  | resp    -- response payload of an operation
+  deriving DecidableEq, Repr, Inhabited
+
+/-- the spelling at a site: `[wrap [array-of]] union` -/
+structure SiteSch where
+  arr : Bool := false               -- `type: array, items: U`
+  wrap : Option Bool := none        -- nullable wrapper `oneOf|anyOf: [·, {type: null}]` (`some true` = oneOf)
+  outerDisc : Option Disc := none   -- discriminator written on the wrapper
+  u : Sch                           -- the union: `oneOf`/`anyOf` of component refs + the discriminator written on it
+  deriving DecidableEq, Repr, Inhabited
+
+structure Site where
+  id : Str
+  pos : Pos
+  holder : Str                      -- component name (named/field) or operation id (body/resp)
+  field : Str := []
+  s : SiteSch
+  deriving DecidableEq, Repr, Inhabited
+
+/-- the schema a site's type is converted FROM -/
+inductive Origin where
+  | own (s : Sch)        -- its own (flattened) union
+  | named (n : Str)      -- the enum of component `n` (`find_union_by_refs`: same set of member refs)
+  | earlier (s : Sch)    -- an inline union converted earlier (same member refs, same discriminator property)
+  | value                -- `serde_json::Value`
+  deriving DecidableEq, Repr, Inhabited
+
+/-- `union_variants_with_kind` -/
+def unionRefs (s : Sch) : List Str := if s.oneOf.isEmpty then s.anyOf else s.oneOf
+
+def fpOf (s : Sch) : List Str := mkSet (unionRefs s)
+
+abbrev UReg := List ((List Str × Option Str) × Sch)
+
+def regLook (k : List Str × Option Str) : UReg → Option Sch
+  | [] => none
+  | (a, b) :: r => if a = k then some b else regLook k r
+
+/-- `resolve_inline_union` -/
+def resolveInline (fps : List (List Str × Str)) (reg : UReg) (u : Sch) : Origin × UReg :=
+  let fp := fpOf u
+  if fp.length ≥ 2 then
+    match lookFp fp fps with
+    | some n => (.named n, reg)
+    | none =>
+      let key := (fp, u.disc.map (·.prop))
+      match regLook key reg with
+      | some s => (.earlier s, reg)
+      | none => (.own u, reg ++ [(key, u)])
+  else (.own u, reg)
+
+/-- `resolve_type_uncached` on an inline union: only `oneOf` is looked at, and only a component with the same refs gives a type -/
+def resolveTypeInline (fps : List (List Str × Str)) (u : Sch) : Origin :=
+  if u.oneOf.isEmpty then .value else
+  let fp := mkSet u.oneOf
+  if fp.length ≥ 2 then (match lookFp fp fps with | some n => .named n | none => .value) else .value
+
+/-- the discriminator a wrapper spelling declares for its union -/
+def siteCore (s : SiteSch) : Sch :=
+  { s.u with disc := match s.u.disc with | some d => some d | none => s.outerDisc }
+
+/-- `convert_schema` (component, request body, object-like response): `try_flatten_nested_union`, array alias -/
+def topRoute (fps : List (List Str × Str)) (reg : UReg) (s : SiteSch) : (Origin × Bool) × UReg :=
+  match s.wrap with
+  | some _ =>
+    -- the variants of the inner union are promoted; for `[array-of-union, null]` the ITEMS' variants (the array is dropped)
+    if s.arr then ((.own s.u, false), reg) else ((.own (siteCore s), false), reg)
+  | none =>
+    if s.arr then let r := resolveInline fps reg s.u; ((r.1, true), r.2)
+    else ((.own s.u, false), reg)
+
+/-- `resolve_property` on an inline schema -/
+def fieldRoute (fps : List (List Str × Str)) (reg : UReg) (s : SiteSch) : (Origin × Bool) × UReg :=
+  match s.wrap with
+  | some _ => ((resolveTypeInline fps s.u, s.arr), reg)      -- `try_nullable_union` → `resolve_type` of the inner schema
+  | none => let r := resolveInline fps reg s.u; ((r.1, s.arr), r.2)
+
+/-- `ResponseConverter::resolve_inline_schema`: an array payload is `resolve_type`d first -/
+def respRoute (fps : List (List Str × Str)) (reg : UReg) (s : SiteSch) : (Origin × Bool) × UReg :=
+  if s.arr && s.wrap.isNone then ((resolveTypeInline fps s.u, true), reg) else topRoute fps reg s
+
+def route (fps : List (List Str × Str)) (reg : UReg) (pos : Pos) (s : SiteSch) : (Origin × Bool) × UReg :=
+  match pos with
+  | .named | .body => topRoute fps reg s
+  | .field => fieldRoute fps reg s
+  | .resp => respRoute fps reg s
+
+/-- conversion order: components in name order (properties in name order), then operations (body, responses) -/
+def posRank : Pos → Nat
+  | .named => 0 | .field => 0 | .body => 1 | .resp => 2
+
+def siteLt (a b : Site) : Bool :=
+  let ca := if posRank a.pos = 0 then 0 else 1
+  let cb := if posRank b.pos = 0 then 0 else 1
+  if ca ≠ cb then decide (ca < cb)
+  else if a.holder ≠ b.holder then ltS a.holder b.holder
+  else if posRank a.pos ≠ posRank b.pos then decide (posRank a.pos < posRank b.pos)
+  else ltS a.field b.field
+
+def insertSite (x : Site) : List Site → List Site
+  | [] => [x]
+  | a :: r => if siteLt x a then x :: a :: r else a :: insertSite x r
+
+def orderSites (l : List Site) : List Site := l.foldl (fun acc x => insertSite x acc) []
+
+/-- THE dispatch function of the model: what `convert_union` makes of a union schema.  It has no position argument. -/
+def dispatchOf (cache : List (Str × DM)) (s : Sch) : EnumF := unionEnum cache [] s
+
+structure SiteTy where
+  vec : Nat                -- number of `Vec<…>` layers around the core type
+  value : Bool             -- the core type is `serde_json::Value`
+  en : Option EnumF        -- the enum of the core type (name erased)
+  deriving DecidableEq, Repr, Inhabited
+
+def originEnum (e : Env) : Origin → Option EnumF
+  | .own s => some (dispatchOf e.cache s)
+  | .earlier s => some (dispatchOf e.cache s)
+  | .named n => (look n e.schemas).map (dispatchOf e.cache)
+  | .value => none
+
+def siteTyOf (e : Env) (o : Origin) (vec : Bool) : SiteTy :=
+  { vec := if vec then 1 else 0, value := decide (o = .value), en := originEnum e o }
+
+/-- origins of all sites, in conversion order -/
+def siteOrigins (fps : List (List Str × Str)) : List Site → UReg → List (Site × Origin × Bool)
+  | [], _ => []
+  | st :: r, reg =>
+    let x := route fps reg st.pos st.s
+    (st, x.1.1, x.1.2) :: siteOrigins fps r x.2
+
+/-- the model's prediction for every use site -/
+def FSites (sp : Spec) (sites : List Site) : List (Site × Origin × SiteTy) :=
+  let e := envOf sp
+  (siteOrigins (fingerprints sp.schemas) (orderSites sites) []).map (fun x => (x.1, x.2.1, siteTyOf e x.2.1 x.2.2))
+
 end Oas3.Discr
